@@ -265,7 +265,9 @@ func (svc *service) stop() {
 
 	// Remove the session from session store if it's suppose to be clean session
 	if svc.sess.Cmsg.CleanSession() && svc.sessMgr != nil {
-		svc.sessMgr.Del(svc.sess.ID())
+		// A successor with the same client ID may have replaced the session in
+		// the store already; that one is not ours to delete.
+		svc.sessMgr.Release(svc.sess)
 	}
 
 }
